@@ -199,6 +199,14 @@ def step (st : St) (op res : String) : St × List String :=
         (if get "refill" == "ok" || get "refill" == "-" then [] else ["FAIL C06 large pool: a freed block was not handed out again (or the pool was not full afterwards)", "FAIL C05 large pool: a freed block was not handed out again (or the pool was not full afterwards)"])
       (st, "br:acap6" :: (if fails.isEmpty then [] else "DIVERGE dom model=exact-capacity" :: fails))
     | _, _ => (st, ["DIVERGE drift unparsed-op"])
+  | "afrace" :: _, .none => (st, ["br:skipped.no-allocator"])
+  | "afrace" :: _, _ =>
+    -- one block handed out, then freed by k callers at once: exactly one Free succeeds (C06 for every schedule)
+    if res == "ok" || res == "full" then (st, ["br:afrace"])
+    else (st, ["br:afrace", "DIVERGE dom model=exactly-one-free-succeeds",
+               s!"FAIL C06 concurrent Free of one outstanding block: {res}",
+               s!"FAIL C16 concurrent Free of one outstanding block (no one-at-a-time order does that): {res}",
+               s!"FAIL C04 concurrent Free of one outstanding block: {res}"])
   | "arace" :: _, .none => (st, ["br:skipped.no-allocator"])
   | "arace" :: _, _ =>
     -- rounds of callers naming the same block at once (harness/alloc.go): the blocks handed out in a
